@@ -373,7 +373,9 @@ class ComplexBinghamTrainer:
 
         def foo(x, scatter_eigenvalue):
             ret = grad_log_norm_symbolic_diff_d(*x, 0) - scatter_eigenvalue
-            return ret
+            # Relative residuals: Otherwise tiny scatter eigenvalues (i.e. the
+            # largest concentrations) are not fitted at all.
+            return ret / scatter_eigenvalue
 
         x0 = -1 / scatter_eigenvalues
         x0[..., -1] = 0
